@@ -28,7 +28,7 @@ from coqfmt import zraw, b, lst, opt, tup
 
 replay = common.generic_replay
 
-IMPORTS = 'Graph Standardize StandardizeMatch StandardizeTie'
+IMPORTS = 'Graph Standardize StandardizeMatch StandardizeTie StandardizeNeutral'
 EXTRA = 'From Gen Require Import StdRules.'
 COLL = {0: 'double_rules', 1: 'single_rules', 2: 'metal_rules'}
 
@@ -555,6 +555,68 @@ RES_GROUPS = ['C=C[CH2+]', 'C[CH2+]', 'C=CC=[O+]C', 'C[CH2-]', 'C=C[CH2-]', 'C[O
               'C[CH2] |^1:1|', 'C=C[CH2] |^1:2|']
 
 
+CATIONS = ['C[NH3+]', '[NH4+]', 'C[NH2+]C', 'c1cc[nH+]cc1', '[NH3+]CC[NH3+]', 'C[NH+](C)C', 'NC(N)=[NH2+]', 'C[N+](C)(C)C', '[Na+]']
+ANIONS = ['[Cl-]', 'CC([O-])=O', '[Br-]', 'CS([O-])(=O)=O', '[O-]c1ccccc1', '[O-]C(=O)CC([O-])=O', 'C[O-]', '[OH-]']
+
+
+def salt_family():
+    """salts with k acid (protonated nitrogen) and j base (anion) components, balanced and unbalanced in both directions"""
+    out = []
+    for i, c in enumerate(CATIONS):
+        for k, j in ((1, 1), (2, 1), (3, 2), (1, 2), (2, 3), (3, 1), (1, 0), (0, 1)):
+            if (i + k + j) % 3 == 0 or (k, j) in ((2, 1), (1, 2)):
+                cs = [CATIONS[(i + x) % len(CATIONS)] for x in range(k)]
+                an = [ANIONS[(i + 2 * x + j) % len(ANIONS)] for x in range(j)]
+                out.append('.'.join(cs + an))
+    return sorted(set(out))
+
+
+def corr_neutralize(ck, rng):
+    """neutralize(keep_charge=True / False): donors / acceptors as the real stripped acid / base patterns match them (inputs of the model), the
+    combination the code takes read off the result; the model moves the protons"""
+    from chython import smiles
+    from chython.algorithms.tautomers._acid import stripped_rules as acid
+    from chython.algorithms.tautomers._base import stripped_rules as base
+    cases, meta = [], []
+    pool = [('salt', s) for s in SALTS + salt_family()] + [('doc result', w) for _, w in test_groups_data()[::4]] + \
+           [('corpus', s) for s in corpus.sample(corpus.lipo(), 25 if ck.tier == 'quick' else 300, ck.seed, 'c14-neutral')]
+    for k, (tag, s) in enumerate(pool):
+        for keep in (True, False):
+            try:
+                m = prepared(smiles(s), bool(k % 2))
+            except Exception:
+                continue
+            if m is None or not valence_valid(m):
+                continue
+            if tag == 'corpus' and k % 3 == 0:
+                m = corpus.renumber(m, random.Random(f'{ck.seed}:n{k}'))
+
+            def sites(rules):
+                out = []
+                for q in rules:
+                    for mp in q.get_mapping(m, automorphism_filter=False):
+                        if mp[1] not in out:
+                            out.append(mp[1])
+                return out
+            donors, acceptors = sites(acid), sites(base)
+            g0 = coqmol.mol_term(m)
+            q0 = {n: a.charge for n, a in m.atoms()}
+            try:
+                r = m.neutralize(keep_charge=keep, _fix_stereo=False)
+            except Exception as e:
+                ck.count(f'neutralize:raises {type(e).__name__}')
+                continue
+            larger = donors if len(donors) > len(acceptors) else acceptors
+            chosen = [n for n in larger if m._atoms[n].charge != q0[n]]
+            res = f'(Some {coqmol.mol_term(m)})' if r else 'None'
+            cases.append(f'neutralize_ok {b(keep)} {g0} {zl(donors)} {zl(acceptors)} {zl(chosen)} {res}')
+            meta.append({'kind': 'neutralize', 'tag': tag, 'mol': s, 'keep_charge': keep, 'donors': len(donors), 'acceptors': len(acceptors)})
+            ck.count('neutralize:' + ('nothing to do' if not r else 'balanced' if len(donors) == len(acceptors) else
+                                      'more donors' if len(donors) > len(acceptors) else 'more acceptors') + ('' if keep else ' (keep_charge=False)'))
+            ck.case(('neutralize', s, keep, k), nontrivial=bool(r))
+    return cases, meta
+
+
 # ---------------------------------------------------------------------------------------------
 # search: property-level oracles on the real code (independent of the model)
 
@@ -1035,6 +1097,8 @@ def search(ck, rng):
         pool.append(('hand', s, None))
     for _, want in test_groups_data():
         pool.append(('documented result', want, None))      # the documented canonical spellings must be fixed points
+    for s in salt_family():
+        pool.append(('salt', s, None))
     for s in GEMINAL:
         pool.append(('geminal', s, None))
     for s in PI_COMPLEXES:
@@ -1073,6 +1137,8 @@ def search(ck, rng):
             if quick and tag in ('doc', 'documented result') and name not in ('standardize', 'canonicalize', 'fix_resonance', 'standardize_charges',
                                                                               'explicify_hydrogens' if tag == 'doc' else 'neutralize'):
                 continue
+            if quick and tag == 'salt' and name not in ('neutralize', 'neutralize(keep_charge=False)', 'canonicalize', 'standardize', 'explicify_hydrogens'):
+                continue
             if 'keep_kekule' in name and (tag in ('doc', 'documented result') or (tag in ('corpus', 'decorated') and hash_pick(s, 'kk') % 3)):
                 continue
             if quick and tag in ('corpus', 'decorated') and name in ('standardize(fix_tautomers=False)', 'neutralize(keep_charge=False)') and hash_pick(s, name) % 2:
@@ -1105,7 +1171,7 @@ def search(ck, rng):
                 check_op(ck, lim, name, label, make)
             normal_form(ck, lim, label, make)
     # (3) tautomer enumeration
-    tpool = [('corpus', s) for s in corpus.sample(lip, 40 if quick else 300, ck.seed, 'c14-taut')] + [('hand', s) for s in TAUT_SMILES]
+    tpool = [('corpus', s) for s in corpus.sample(lip, 40 if quick else 300, ck.seed, 'c14-taut')] + [('hand', s) for s in TAUT_SMILES] + [('salt', s) for s in salt_family()[::2]]
     for tag, s in tpool:
         check_tautomers(ck, lim, s, tag)
     ck.extra['search_failures'] = dict(lim.seen)
@@ -1348,7 +1414,7 @@ def run(ck):
         laps[name] = round(time.time() - t0, 1)
         t0 = time.time()
 
-    proved = common.standard_proof_steps(ck, translators=['elements', 'stdrules'], extra_targets=('model/StandardizeTie.vo', 'model/StandardizeMatch.vo'))
+    proved = common.standard_proof_steps(ck, translators=['elements', 'stdrules'], extra_targets=('model/StandardizeTie.vo', 'model/StandardizeMatch.vo', 'model/StandardizeNeutral.vo'))
     lap('proof')
     tied = True
     disagreeing = []
@@ -1362,6 +1428,8 @@ def run(ck):
                    ('c14_matcher', corr_matcher, 'correspondence: the set of mappings get_mapping yields for a rule pattern == the embeddings of the matcher '
                     'specification Model.StandardizeMatch (matched rules + sample of unmatched ones); standardize() of small molecules entirely inside Coq', 40),
                    ('c14_hydrogens', corr_hydrogens, 'correspondence: explicify_hydrogens / implicify_hydrogens == Coq model (whole molecule incl. insertion order, exceptions)', 60),
+                   ('c14_neutralize', corr_neutralize, 'correspondence: neutralize(keep_charge=True / False) == Coq model of the proton moves (donor / acceptor sites '
+                    'as the real patterns match them)', 60),
                    ('c14_resonance', corr_resonance, 'correspondence: fix_resonance == Coq application of the accepted paths + hydrogen recalculation', 60)]
         for name, fn, what, shard in batches:
             try:
